@@ -55,6 +55,10 @@ type run struct {
 	// wantLimit: the request comes from the address whose rate-limit bucket is being drained; whether
 	// the limiter lets it pass is its decision: the run's fault is "ratelimit" only if it did not
 	wantLimit bool
+	// holdWrite, if set, makes the handler's first stream write (the status) wait: the requester is a
+	// slow reader. atWrite is closed when the handler has reached that write.
+	holdWrite chan struct{}
+	atWrite   chan struct{}
 
 	dataCalls, dataErrs int
 	dataPanic           bool
@@ -241,6 +245,13 @@ func (s *monStream) Write(p []byte) (int, error) {
 	r.mu.Lock()
 	r.writes++
 	first := r.writes == 1
+	if first && r.holdWrite != nil {
+		hold, at := r.holdWrite, r.atWrite
+		r.mu.Unlock()
+		close(at)
+		<-hold
+		r.mu.Lock()
+	}
 	if first {
 		r.flushLocked(true)
 		code := "?"
